@@ -230,6 +230,9 @@ def describe {D S R Q} (e : Engine D R Q) (descOf : Q → Q) (c : Conn D S R Q) 
       | none => { cur with result := none, fetchIndex := none, rowcount := none }
     ({ c with duck := r.1, cursors := c.cursors.set i cur' }, r.2)
 
+/-- `connection.execute_string`: one NEW cursor per statement; after the script, cursor `i` remembers statement `i` (and its result) -/
+def scriptCursors {R Q} (stmts : List Q) : List (Cur R Q) := stmts.map fun q => { lastSql := some q }
+
 /-! ### what is sent to DuckDB for a seeded query (cursor.py: `transformed.args.get("seed")`) -/
 
 /-- the part of a transformed statement the seed logic looks at: is the top-level node a DESCRIBE wrapper, and the
